@@ -5,7 +5,7 @@
   definitions of `Model/Ranges.lean` / `Model/LazyOps.lean`, i.e. the very functions the native
   driver runs against the Rust implementation in the correspondence check.
 -/
-import MocVerif.Lemmas.Sweep
+import MocVerif.Lemmas.Degrade
 
 namespace Moc.C01
 
@@ -52,6 +52,83 @@ theorem difference_eq_of_same_set (a b c : List Rng) (ha : Canon a) (hb : Canon 
     (h : ∀ x, mem x c ↔ mem x a ∧ ¬ mem x b) : difference a b = c :=
   Canon.ext (difference_sem a b ha hb).1 hc (fun x => by rw [(difference_sem a b ha hb).2, h])
 
+/-- `MocRanges::degraded` / `RangeMOC::degraded`: the result covers exactly the cells of the target
+    depth (size `2^s`, `s = shift_from_depth_max(new_depth)`) that contain a covered index. -/
+theorem degraded_sem (s : Nat) (a : List Rng) (ha : Canon a) :
+    Canon (degradedShift s a) ∧
+    ∀ x, mem x (degradedShift s a) ↔ ∃ y, mem y a ∧ x / 2 ^ s = y / 2 ^ s :=
+  degradedShift_spec s a ha
+
+/-! #### lazy / streaming operators, for EVERY consistent hint configuration of the sources -/
+
+/-- `and(l, r)`: whatever (consistent) `peek_last` hints the two sources advertise. -/
+theorem lazy_and_sem (l r : Src) (hl : l.HintOk) (hr : r.HintOk) (cl : Canon l.items) (cr : Canon r.items) :
+    (andSrc l r).depth = max l.depth r.depth ∧ Canon (andSrc l r).items ∧
+    (andSrc l r).items = intersection l.items r.items ∧
+    ∀ x, mem x (andSrc l r).items ↔ mem x l.items ∧ mem x r.items := by
+  have e : (andSrc l r).items = interLoop l.items r.items := andItems_eq l r hl hr cl cr
+  have sp := interLoop_spec l.items r.items 0 0 cl cr
+  refine ⟨rfl, ?_, ?_, ?_⟩
+  · rw [e]; exact sp.1
+  · rw [e, intersection_eq_interLoop _ _ cl cr]
+  · rw [e]; exact sp.2
+
+/-- `or(l, r)` incl. the `DisjointRightFirst` concatenation strategy. -/
+theorem lazy_or_sem (l r : Src) (hr : r.HintOk) (cl : Canon l.items) (cr : Canon r.items) :
+    (orSrc l r).depth = max l.depth r.depth ∧ Canon (orSrc l r).items ∧
+    (orSrc l r).items = union l.items r.items ∧
+    ∀ x, mem x (orSrc l r).items ↔ mem x l.items ∨ mem x r.items := by
+  have e : (orSrc l r).items = unionLoop l.items r.items := orItems_eq l r hr cl cr
+  have sp := unionLoop_spec l.items r.items 0 0 cl cr
+  refine ⟨rfl, ?_, ?_, ?_⟩
+  · rw [e]; exact sp.1
+  · rw [e, union_eq_unionLoop _ _ cl cr]
+  · rw [e]; exact sp.2
+
+/-- `xor(l, r)` (also `RangeMOC::xor`, which collects this iterator). -/
+theorem lazy_xor_sem (l r : Src) (cl : Canon l.items) (cr : Canon r.items) :
+    (xorSrc l r).depth = max l.depth r.depth ∧ Canon (xorSrc l r).items ∧
+    ∀ x, mem x (xorSrc l r).items ↔ (mem x l.items ↔ ¬ mem x r.items) :=
+  ⟨rfl, (xorLoop_spec l.items r.items 0 cl cr).1, (xorLoop_spec l.items r.items 0 cl cr).2⟩
+
+/-- `minus(l, r)` (also `RangeMOC::minus`), for the repaired quick tests. -/
+theorem lazy_minus_sem (l r : Src) (hl : l.HintOk) (hr : r.HintOk) (cl : Canon l.items) (cr : Canon r.items) :
+    (minusSrc l r).depth = max l.depth r.depth ∧ Canon (minusSrc l r).items ∧
+    (minusSrc l r).items = difference l.items r.items ∧
+    ∀ x, mem x (minusSrc l r).items ↔ mem x l.items ∧ ¬ mem x r.items := by
+  have e : (minusSrc l r).items = minusLoop l.items r.items := minusItems_eq l r hl hr cl cr
+  have sp := minusLoop_spec l.items r.items 0 0 cl cr
+  refine ⟨rfl, ?_, ?_, ?_⟩
+  · rw [e]; exact sp.1
+  · rw [e]
+    exact Canon.ext sp.1 (difference_spec _ _ cl cr).1
+      (fun x => by rw [sp.2, (difference_spec _ _ cl cr).2])
+  · rw [e]; exact sp.2
+
+/-- `not(s)` = complement in `[0, n_cells_max)`. -/
+theorem lazy_not_sem (ub : Nat) (hub : 0 < ub) (s : Src) (cs : Canon s.items) (hb : BoundedBy ub s.items) :
+    (notSrc ub s).depth = s.depth ∧ Canon (notSrc ub s).items ∧
+    ∀ x, mem x (notSrc ub s).items ↔ x < ub ∧ ¬ mem x s.items :=
+  ⟨rfl, (complement_spec ub s.items hub cs hb).1, (complement_spec ub s.items hub cs hb).2⟩
+
+/-- `degrade(s, new_depth)` with `new_depth < depth`: the stream equals the eager `degraded`. -/
+theorem lazy_degrade_sem (sh nd : Nat) (s : Src) (cs : Canon s.items) (hnd : nd < s.depth) :
+    (degradeSrc sh nd s).depth = nd ∧ (degradeSrc sh nd s).items = degradedShift sh s.items := by
+  unfold degradeSrc
+  rw [if_pos hnd]
+  refine ⟨rfl, ?_⟩
+  cases h : s.items with
+  | nil => simp [degradedShift, mergeOverlapping]
+  | cons r t => simp only []; rw [h] at cs; exact degradeFrom_head_eq sh r t 0 cs
+
+/-- Bounds and cell alignment are preserved by every operator computing a pointwise Boolean
+    combination `f` (with `¬ f False False`) — hence by and / or / xor / minus, eager or lazy. -/
+theorem binary_valid (c ub : Nat) (hc : 0 < c) (a b o : List Rng) (f : Prop → Prop → Prop)
+    (hf : ¬ f False False) (ha : Canon a) (hb : Canon b) (ho : Canon o)
+    (hba : BoundedBy ub a) (hbb : BoundedBy ub b) (haa : Aligned c a) (hab : Aligned c b)
+    (hsem : ∀ x, mem x o ↔ f (mem x a) (mem x b)) : BoundedBy ub o ∧ Aligned c o :=
+  valid_of_sem c ub hc a b o f hf ha hb ho hba hbb haa hab hsem
+
 /-! Non-vacuity: concrete non-trivial values meeting the hypotheses. -/
 example : Canon [(0, 4), (8, 12)] ∧ Canon [(2, 9)] := by decide
 example : union [(0, 4), (8, 12)] [(2, 9)] = [(0, 12)] := by
@@ -60,5 +137,9 @@ example : intersection [(0, 4), (8, 12)] [(2, 9)] = [(2, 4), (8, 9)] := by
   simp [intersection, interLoop, lastEndD, startIdx]
 example : complement 12 [(0, 4), (8, 12)] = [(4, 8)] := by
   simp [complement, complFrom]
+example : xorLoop [(0, 4), (8, 12)] [(2, 9)] = [(0, 2), (4, 8), (9, 12)] := by
+  simp [xorLoop]
+example : (⟨2, [(0, 4), (8, 12)], some (8, 12), 2, some 2, []⟩ : Src).HintOk := by
+  simp [Src.HintOk]
 
 end Moc.C01
